@@ -19,6 +19,9 @@
 (*   freeze           what the caller promises compute: structure arrays   *)
 (*                    become read-only, vals non-reallocatable             *)
 (*   revalue(val|map) replace the input VALUES, same structure             *)
+(*   observe(k)       take the k-th output RECORDED from the real kernel   *)
+(*                    (raw pos/crd/vals arrays) as the snapshot: the judge *)
+(*                    then validates an implementation trace               *)
 (*                                                                         *)
 (* When the script ends (or a run faults) the behaviour is judged by the   *)
 (* operators below against TensorAlgebra / Storage and one verdict line is *)
@@ -275,12 +278,21 @@ Revalue ==
           /\ Advance /\ UNCHANGED <<fin, status>>
   /\ UNCHANGED <<prog, pc, env, tens, steps, iters, acc, track, case, dimset, snaps>>
 
+\* trace validation: an output recorded from the REAL kernel (raw arrays) is judged like a machine output
+Observe ==
+  /\ Scripted("observe")
+  /\ snaps' = Append(snaps, [steps |-> 0, iters |-> 0, acc |-> [r |-> {}, w |-> {}], why |-> "",
+                             levels |-> C.obs[Op.k].levels, vals |-> C.obs[Op.k].vals, leaked |-> 0,
+                             lens |-> <<>>, pre |-> <<>>, ret |-> 0])
+  /\ Advance
+  /\ UNCHANGED <<mvars, case, content, dimset, fin>>
+
 Finish ==
   /\ ~fin /\ status = "idle" /\ phase > Len(Script)
   /\ fin' = TRUE
   /\ UNCHANGED <<mvars, case, phase, content, dimset, snaps>>
 
-Next == Load \/ Reload \/ LoadRaw \/ Select \/ Begin \/ Step \/ RunDone \/ RunFault \/ Snap \/ Freeze \/ Revalue \/ Finish
+Next == Load \/ Reload \/ LoadRaw \/ Observe \/ Select \/ Begin \/ Step \/ RunDone \/ RunFault \/ Snap \/ Freeze \/ Revalue \/ Finish
 Spec == Init /\ [][Next]_vars
 
 --------------------------------------------------------------------------
